@@ -3,6 +3,7 @@ import TwistedModel.Defer.Spec
 import TwistedProps.C01.Program
 import TwistedProps.C01.LeafProgram
 import TwistedProps.C01.Refine
+import TwistedProps.C01.ChainProg
 /-!
 C01 — Deferred callback chains compute what a sequential interpreter predicts.
 
@@ -151,36 +152,45 @@ example : (exec (init 2) demo).map (fun s => s.cells.map (fun c => (c.result, c.
 
 /-! ## 4. the chain-stack implementation against the recursive reference interpreter
 
-FULL STATEMENT (the property): for every program `prog` inside the statement's domain — `unpause` never outnumbers
+THE STATEMENT (the property): for every program `prog` inside the statement's domain — `unpause` never outnumbers
 `pause` on a Deferred, no callable returns the Deferred it is attached to (Twisted warns) —
 
-    Spec.history (init n) prog  ≈  history (init n) prog
+    Spec.history (init n) prog  =  history (init n) prog
 
-where `≈` is: same outcome of every operation, after every operation the same `called` / `result` / pending callables
-of every Deferred, and the same invocations with the same inputs and outputs per Deferred (the interleaving of two
-different Deferreds' chains inside one operation is not fixed by the statement, and does differ when a callable returns
-a Deferred that is itself in the middle of its chain).
+i.e. the recursive reference interpreter of the documented chaining rules (`TwistedModel/Defer/Spec.lean`: nesting is
+the call stack; the `_runningCallbacks` guard keeps a Deferred whose loop is on the call stack from being re-entered; a
+returned Deferred that has fired, is not paused and has nothing left to run hands its result over at once) and the
+chain-stack implementation produce the same outcome of every operation and, after every operation, the same heap
+(`called` / `result` / `paused` / pending callables and continuations of every Deferred), the same invocations with the
+same inputs and outputs in the same global order, the same counters.  This is PROVED: `run_refines_spec` — for ALL
+programs of the domain: callables returning fired / unfired / paused / waiting Deferreds, Deferreds returned while they
+are in the middle of their own chain, several Deferreds waiting on one, results stolen, pauses while waiting.
 
-PROVED below: (a) `run_refines_spec_partial` — exact equality (`=`, including interleaving and pause counts) for every
-program in which no callable returns a Deferred, with arbitrary (even unbalanced) pause/unpause, adds before and after
-firing, errback/callback routing through `passthru` slots; (b) `chain_stack_is_call_stack` — the structural reason the
-iterative loop equals nested recursion, for ALL heaps: walking a stack `top ++ below` = walking `top` to completion,
-then `below`; (c) the reference interpreter never runs out of its fuel on such programs (it returns `some`).
+How: `sim` (`TwistedProps/C01/ChainRun.lean`) is the induction that replaces the recursive calls of `Spec.run`
+(resume → `run c`) by pushes on the chain stack with `chain_stack_is_call_stack`; the list of running Deferreds of the
+recursion is the chain stack below the top.  It rests on the invariants `Good3` (`ChainDefs.lean`, `ChainIdle.lean`),
+preserved by every iteration of the loop (`stepConf_good`, `stepConf_good3`) and every operation of a program
+(`stepWith_good`):  `called ↔ result set`;  `paused ≥ user pauses + outstanding continuations` (this is where balance
+is used);  a Deferred holding a Deferred is paused;  a continuation belongs to a fired Deferred;  no callable returns
+its own Deferred;  a fired, unpaused Deferred with a plain result that is not on the stack has no callbacks (`Idle` —
+so a returned Deferred that must be waited for although it is fired, unpaused and holds a plain result IS on the stack,
+which is exactly when the reference's guard declines to re-enter it);  the Deferreds below the top of the stack are not
+paused and the stack has no duplicates.
 
-MISSING for the full statement: the induction that uses (b) to replace the recursive calls of `Spec.run` (resume →
-`run c`, `addBoth(resume)` → `run j`) by pushes on the chain stack.  It needs the heap invariants
-`called ↔ result set`, `paused = user pauses + continuations outstanding` (this is where balance is used),
-`a fired, unpaused Deferred with a plain result that is not on the stack has no callbacks` (so stealing = appending a
-continuation and running it), and a commutation argument for a Deferred returned while it is mid-chain (the
-implementation parks the continuation and finishes the Deferreds above first; the reference runs it at once).  None of
-this is proved here; the claim for chaining programs rests on the differential tie and the reference-interpreter oracle
-of `harness/corr/C01.py` (both interpreters are run on every case; exhaustive short programs + random ones) and on the
-concrete evaluations below. -/
+Also kept: `run_refines_spec_nonchaining` (programs OUTSIDE the domain as far as pauses go: arbitrary unbalanced
+pause/unpause, provided no callable returns a Deferred) and `chain_stack_is_call_stack` (all heaps).
 
-/-- **Refinement, non-chaining fragment** (partial: see the comment above for the full statement and what is missing).
+STILL MISSING (not part of the refinement): `input_is_previous_output` for non-leaf Deferreds as a statement about the
+implementation alone.  Literally it is false there — after a Deferred has resumed a waiting one its result is `None`,
+so its next callable receives `None`, not the previous output; and the input after a callable that returned Deferred
+`j` is what `j` handed over — stating it needs a ghost log of hand-overs.  For every program of the domain the inputs
+are those of the reference interpreter (`run_refines_spec`), whose `resume` hands over exactly the returned Deferred's
+result at that time. -/
+
+/-- **Refinement, non-chaining programs with arbitrary (also unbalanced) pauses.**
     For every program whose callables return no Deferred: the recursive reference interpreter and the chain-stack
     implementation produce the same outcome and the same state (heap, trace, counters) after every operation. -/
-theorem run_refines_spec_partial (n : Nat) (prog : List Op) (h : noChaining prog = true) :
+theorem run_refines_spec_nonchaining (n : Nat) (prog : List Op) (h : noChaining prog = true) :
     Twisted.Defer.Spec.history (init n) prog = history (init n) prog := by
   have hops : ∀ op ∈ prog, opPlain op = true := by
     intro op hop
@@ -189,7 +199,7 @@ theorem run_refines_spec_partial (n : Nat) (prog : List Op) (h : noChaining prog
   exact traceWith_plain (init_plain n) hops
 
 /-- …in particular the reference interpreter answers (its fuel suffices) and the final states agree -/
-theorem run_refines_spec_partial_final (n : Nat) (prog : List Op) (h : noChaining prog = true) :
+theorem run_refines_spec_nonchaining_final (n : Nat) (prog : List Op) (h : noChaining prog = true) :
     ∃ s, Twisted.Defer.Spec.exec (init n) prog = some s ∧ exec (init n) prog = some s := by
   have hops : ∀ op ∈ prog, opPlain op = true := by
     intro op hop
@@ -219,6 +229,97 @@ theorem run_refines_spec_partial_final (n : Nat) (prog : List Op) (h : noChainin
 theorem chain_stack_is_call_stack (c : Conf) (below : List Nat) :
     loop { c with chain := c.chain ++ below } = loop { loop c with chain := below } :=
   loop_chain_append c below
+
+/-- **Refinement (the property, full).**  For every program inside the statement's domain (`inDomain`, static:
+    `unpause` never outnumbers `pause`, no callable returns its own Deferred), over any number of Deferreds: the
+    recursive reference interpreter and the chain-stack implementation produce the same outcome and the same state
+    (heap, trace, counters) after every operation. -/
+theorem run_refines_spec (n : Nat) (prog : List Op) (hdom : inDomain prog = true) :
+    Twisted.Defer.Spec.history (init n) prog = history (init n) prog :=
+  history_good n prog hdom
+
+/-- …in particular the per-Deferred observable of the statement: for each Deferred the same invocations
+    (callable tag, input, output) in the same order, the same result, the same pending callbacks — after every
+    operation -/
+theorem run_refines_spec_perDeferred (n : Nat) (prog : List Op) (hdom : inDomain prog = true) (d : Nat) :
+    (Twisted.Defer.Spec.history (init n) prog).map (fun h => h.map (fun p => (p.1, dTrace p.2.trace d, p.2.cells[d]?))) =
+    (history (init n) prog).map (fun h => h.map (fun p => (p.1, dTrace p.2.trace d, p.2.cells[d]?))) := by
+  rw [run_refines_spec n prog hdom]
+
+/-- …and the reference interpreter answers (its fuel suffices) with the implementation's final state -/
+theorem run_refines_spec_final (n : Nat) (prog : List Op) (hdom : inDomain prog = true) :
+    ∃ s, Twisted.Defer.Spec.exec (init n) prog = some s ∧ exec (init n) prog = some s := by
+  obtain ⟨s, hs⟩ := exec_total (init n) prog
+  refine ⟨s, ?_, hs⟩
+  have key : ∀ (up : Nat → Int) (st : State) (ops : List Op), GoodRest up st.cells → domOK up ops = true →
+      execWith Twisted.Defer.Spec.specRun st ops = execWith coreRun st ops := by
+    intro up st ops
+    induction ops generalizing up st with
+    | nil => intros; rfl
+    | cons op ops ih =>
+      intro hg hd
+      simp only [domOK, Bool.and_eq_true] at hd
+      obtain ⟨r, hr⟩ := stepWith_core_some st op
+      obtain ⟨s1, o⟩ := r
+      have h1 := stepWith_good hg hd.1 hr
+      simp only [execWith, h1.1, hr]
+      exact ih _ s1 h1.2 hd.2
+  rw [← hs]
+  exact key _ (init n) prog (init_rest n) hdom
+
+/-- the heap-level core: on a configuration satisfying the invariants, a `_runCallbacks` walk from a fired Deferred
+    is exactly the recursive `run` -/
+theorem runCallbacks_refines_recursion {up : Nat → Int} {h : Heap} {d : Nat}
+    (hg : Good3 up { cells := h.1, trace := h.2, chain := [d] }) :
+    Twisted.Defer.Spec.specRun h d = coreRun h d :=
+  specRun_eq_coreRun_of (up := up) (G := Good3 up) (fun c h => h.1) (fun c c' hg h => stepConf_good3 hg h)
+    (fun c ext hg => loop_good3_append c ext hg) hg
+
+/-- the invariants of §4 hold after every program of the domain; in particular every fired, unpaused Deferred that
+    holds a plain result has run all its callbacks -/
+theorem domain_heap_invariants (n : Nat) (prog : List Op) (hdom : inDomain prog = true) (s : State)
+    (h : exec (init n) prog = some s) : ∃ up, GoodRest up s.cells :=
+  exec_good prog (init_rest n) hdom s h
+
+/-- A Deferred returned while it is in the middle of its chain, and two Deferreds then waiting on one.  Deferred 1
+    waits for 2, Deferred 0 for 1; 2 fires: it resumes 1, which resumes 0, whose next callable returns 2 — which still
+    has a callable to run and whose loop is on the stack.  It is not re-entered (`_runningCallbacks`): Deferred 1
+    finishes first, then 2; both return the unfired Deferred 3, which hands its result to 1. -/
+def witnessTwoWaiters : List Op :=
+  [.add 1 (.user (.retDef 2)) .passthru, .callback 1 0, .add 0 (.user (.retDef 1)) .passthru,
+   .add 0 (.user (.retDef 2)) .passthru, .callback 0 0, .add 1 (.user (.retDef 3)) .passthru,
+   .add 2 (.user (.retDef 3)) .passthru, .callback 2 5, .callback 3 7]
+
+/-- the same with Deferred 2 having NOTHING left to run when it is returned (its loop still on the stack): its result
+    is used at once, Deferred 0 goes on and reaches Deferred 3 before Deferred 1 does -/
+def witnessIdleRunning : List Op :=
+  [.add 1 (.user (.retDef 2)) .passthru, .callback 1 0, .add 0 (.user (.retDef 1)) .passthru,
+   .add 0 (.user (.retDef 2)) .passthru, .add 0 (.user (.retDef 3)) .passthru, .callback 0 0,
+   .add 1 (.user (.retDef 3)) .passthru, .callback 2 5, .callback 3 7]
+
+example : inDomain witnessTwoWaiters = true ∧ inDomain witnessIdleRunning = true := by decide
+example : (exec (init 4) witnessTwoWaiters).map (fun s => s.cells.map (·.result)) =
+    some [.pyNone, .ok 7, .pyNone, .pyNone] := by decide
+example : (Twisted.Defer.Spec.exec (init 4) witnessTwoWaiters).map (fun s => s.cells.map (·.result)) =
+    some [.pyNone, .ok 7, .pyNone, .pyNone] := by decide
+example : (exec (init 4) witnessIdleRunning).map (fun s => s.cells.map (·.result)) =
+    some [.ok 7, .pyNone, .pyNone, .pyNone] := by decide
+example : (Twisted.Defer.Spec.exec (init 4) witnessIdleRunning).map (fun s => s.cells.map (·.result)) =
+    some [.ok 7, .pyNone, .pyNone, .pyNone] := by decide
+
+/-- non-vacuity: stealing from a fired Deferred, a chain of three, a pause while waiting, an errback resumed,
+    late adds, a second wait on the same Deferred -/
+def demoChain : List Op :=
+  [.callback 2 5, .add 0 (.user (.retDef 1)) .passthru, .add 1 (.user (.retDef 2)) .passthru, .pause 1, .callback 0 1,
+   .callback 1 2, .add 0 .passthru (.user (.value 3)), .unpause 1, .add 2 (.user (.raise 4)) .passthru,
+   .add 1 (.user (.retDef 2)) .passthru, .add 0 (.user (.retFail 6)) (.user (.value 8))]
+
+example : inDomain demoChain = true := by decide
+example : (exec (init 3) demoChain).map (fun s => (s.trace.map (fun e => (e.d, e.tag, e.input, e.output)),
+      s.cells.map (·.result))) =
+    some ([(0, 0, .ok 1, .dref 1), (1, 1, .ok 2, .dref 2), (2, 3, .pyNone, .fail 4), (1, 4, .pyNone, .dref 2),
+           (0, 5, .ok 5, .fail 6)], [.fail 6, .fail 4, .pyNone]) := by decide
+example : inDomain demo = true := by decide
 
 /-- a non-chaining program with pauses, an unbalanced unpause, late adds and error routing -/
 def demoPlain : List Op :=
@@ -253,5 +354,6 @@ example : (exec (init 2) witnessMidChain).map (fun s => (s.trace.map (fun e => (
       s.cells.map (·.result))) =
     some ([(0, 0, .ok 1), (0, 1, .ok 5), (1, 3, .pyNone), (0, 2, .ok 7)], [.ok 2, .pyNone]) := by decide
 example : Twisted.Defer.Spec.history (init 2) demo = history (init 2) demo := by decide
+example : inDomain witnessPausedChainee = true ∧ inDomain witnessMidChain = true := by decide
 
 end TwistedProps.C01
